@@ -484,6 +484,10 @@ func RPCReadSector(ctx context.Context, t TransportClient, prices rhp4.HostPrice
 	}
 	if err := req.Validate(t.PeerKey()); err != nil {
 		return RPCReadSectorResult{}, clientErr("invalid request", err)
+	} else if offset%rhp4.LeafSize != 0 {
+		// the proof covers whole leaves and every verified byte is written to w: an
+		// unaligned offset would deliver the bytes before it as well
+		return RPCReadSectorResult{}, clientErrf("offset %d is not segment aligned", offset)
 	}
 
 	s, err := openStream(ctx, t, defaultStreamTimeout)
